@@ -338,7 +338,7 @@ def run(chk):
                     "the CEA is the first message of the modelled stream; in 40% of the runs the messages travel in the same segments as the CEA"]
     quick = chk.tier == "quick"
     explore_handoff(chk, rng, 400 if quick else 20000, 60 if quick else 2000, "sweep")
-    explore(chk, rng, 40 if quick else 2500, "sweep")
+    explore(chk, rng, 90 if quick else 2500, "sweep")
 
     def search():
         explore_handoff(chk, rng, 1500, 200, "search")
